@@ -250,9 +250,17 @@ impl Channel {
         chan.busy = false;
         chan.transmission_finish_time = SimTime::ZERO;
 
-        if let Some((msg, next_gate)) = chan.buffer.dequeue() {
+        // A transmission with a busy time of zero does not schedule another
+        // unbusy notification, so continue until the channel is busy again
+        // or the buffer is drained.
+        while let Some((msg, next_gate)) = chan.buffer.dequeue() {
             drop(chan);
-            self.send_message(msg, next_gate, sink);
+            self.clone().send_message(msg, next_gate, sink);
+
+            chan = self.inner.write().unwrap();
+            if chan.busy {
+                break;
+            }
         }
     }
 }
